@@ -11,17 +11,17 @@ def q_newman(W, ci, gamma=1.0):
     """Directed Leicht-Newman form (reduces to Newman's for symmetric W):
     Q = 1/s * sum_ij [W_ij - gamma * kout_i kin_j / s] delta(c_i, c_j), s = sum(W)."""
     W = np.asarray(W, dtype=float)
-    s = W.sum()
-    ko = W.sum(axis=1)
-    ki = W.sum(axis=0)
+    Wn = W / W.sum()              # evaluate on the normalised matrix: no overflow / underflow for any weight scale
+    ko = Wn.sum(axis=1)
+    ki = Wn.sum(axis=0)
     n = len(W)
     d = _delta(ci)
     tot = 0.0
     for i in range(n):
         for j in range(n):
             if d[i, j]:
-                tot += W[i, j] - gamma * ko[i] * ki[j] / s
-    return tot / s
+                tot += Wn[i, j] - gamma * ko[i] * ki[j]
+    return tot
 
 
 def _parts(W):
@@ -32,38 +32,36 @@ def _parts(W):
 
 
 def _raw(Wp, ci, gamma, sp):
-    """sum_ij [Wp_ij - gamma k_i k_j / sp] delta  (0 if sp == 0)"""
+    """(1/sp) * sum_ij [Wp_ij - gamma k_i k_j / sp] delta, evaluated on Wp/sp (scale-invariant; 0 if sp == 0)"""
     if sp == 0:
         return 0.0
-    ko = Wp.sum(axis=1)
-    ki = Wp.sum(axis=0)
+    Wn = Wp / sp
+    ko = Wn.sum(axis=1)
+    ki = Wn.sum(axis=0)
     d = _delta(ci)
-    return float(np.sum((Wp - gamma * np.outer(ko, ki) / sp) * d))
+    return float(np.sum((Wn - gamma * np.outer(ko, ki)) * d))
 
 
 def q_signed(W, ci, gamma=1.0, qtype="sta"):
     """Rubinov & Sporns (2011) signed modularities, gamma on both null terms.
     smp: Q+/v+ - Q-/v-   gja: (Q+ - Q-)/(v+ + v-)   sta: Q+/v+ - Q-/(v+ + v-)   pos: Q+/v+   neg: -Q-/v-"""
     W0, W1, s0, s1 = _parts(W)
-    r0 = _raw(W0, ci, gamma, s0)
-    r1 = _raw(W1, ci, gamma, s1)
+    r0 = _raw(W0, ci, gamma, s0)          # already divided by s0
+    r1 = _raw(W1, ci, gamma, s1)          # already divided by s1
+    tot = s0 + s1
+    f0 = s0 / tot if tot else 0.0         # v+ / (v+ + v-), computed from the ratio (scale-invariant)
+    f1 = s1 / tot if tot else 0.0
     if qtype == "smp":
-        d0, d1 = (1 / s0 if s0 else 0), (1 / s1 if s1 else 0)
-    elif qtype == "gja":
-        d0 = d1 = 1 / (s0 + s1)
-    elif qtype == "sta":
-        d0, d1 = (1 / s0 if s0 else 0), 1 / (s0 + s1)
-    elif qtype == "pos":
-        d0, d1 = (1 / s0 if s0 else 0), 0
-    elif qtype == "neg":
-        d0, d1 = 0, (1 / s1 if s1 else 0)
-    else:
-        raise KeyError(qtype)
-    if not s0:
-        d0 = 0
-    if not s1:
-        d1 = 0
-    return d0 * r0 - d1 * r1
+        return r0 - r1
+    if qtype == "gja":
+        return f0 * r0 - f1 * r1
+    if qtype == "sta":
+        return r0 - f1 * r1
+    if qtype == "pos":
+        return r0
+    if qtype == "neg":
+        return -r1
+    raise KeyError(qtype)
 
 
 def q_objective(W, ci, gamma, objective):
